@@ -29,15 +29,15 @@ import (
 )
 
 // pathState is a per-interface mutable system.State.
-type pathState struct {
+type vfPathState struct {
 	mu       sync.Mutex
 	fw       map[string]bool
 	failNext map[string]bool // the next IPv6Forwarding read for the interface fails (once)
 	pluginFail map[string]bool // the next address listing for the interface's wildcard plugin fails (once)
 }
 
-func (s *pathState) IPv6Autoconf(string) (bool, error) { return false, nil }
-func (s *pathState) IPv6Forwarding(i string) (bool, error) {
+func (s *vfPathState) IPv6Autoconf(string) (bool, error) { return false, nil }
+func (s *vfPathState) IPv6Forwarding(i string) (bool, error) {
 	s.mu.Lock()
 	defer s.mu.Unlock()
 	if s.failNext[i] {
@@ -46,13 +46,13 @@ func (s *pathState) IPv6Forwarding(i string) (bool, error) {
 	}
 	return s.fw[i], nil
 }
-func (s *pathState) fail(i string) {
+func (s *vfPathState) fail(i string) {
 	s.mu.Lock()
 	s.failNext[i] = true
 	s.mu.Unlock()
 }
-func (s *pathState) SetIPv6Autoconf(string, bool) error { return nil }
-func (s *pathState) set(i string, b bool) {
+func (s *vfPathState) SetIPv6Autoconf(string, bool) error { return nil }
+func (s *vfPathState) set(i string, b bool) {
 	s.mu.Lock()
 	s.fw[i] = b
 	s.mu.Unlock()
@@ -67,8 +67,8 @@ func (s *pathState) set(i string, b bool) {
 // wildcards, when their address or route source fails; Prepare would replace an injected source of
 // a real wildcard by the operating system's, so the harness brings its own plugin): it adds nothing
 // to the RA and fails once when told to (op P).
-type failingPlugin struct {
-	st   *pathState
+type vfFailingPlugin struct {
+	st   *vfPathState
 	name string
 	// hold: the next Apply blocks until release is closed (one-shot; op O)
 	mu      sync.Mutex
@@ -77,16 +77,16 @@ type failingPlugin struct {
 	release chan struct{}
 }
 
-func (p *failingPlugin) arm() {
+func (p *vfFailingPlugin) arm() {
 	p.mu.Lock()
 	p.hold, p.held, p.release = true, make(chan struct{}), make(chan struct{})
 	p.mu.Unlock()
 }
 
-func (*failingPlugin) Name() string                 { return "verif-failing" }
-func (*failingPlugin) String() string               { return "verif-failing" }
-func (*failingPlugin) Prepare(*net.Interface) error { return nil }
-func (p *failingPlugin) Apply(*ndp.RouterAdvertisement) error {
+func (*vfFailingPlugin) Name() string                 { return "verif-failing" }
+func (*vfFailingPlugin) String() string               { return "verif-failing" }
+func (*vfFailingPlugin) Prepare(*net.Interface) error { return nil }
+func (p *vfFailingPlugin) Apply(*ndp.RouterAdvertisement) error {
 	p.mu.Lock()
 	if p.hold {
 		p.hold = false
@@ -106,20 +106,20 @@ func (p *failingPlugin) Apply(*ndp.RouterAdvertisement) error {
 	return nil
 }
 
-type syncBuf struct {
+type vfSyncBuf struct {
 	mu sync.Mutex
 	b  bytes.Buffer
 }
 
-func (b *syncBuf) Write(p []byte) (int, error) { b.mu.Lock(); defer b.mu.Unlock(); return b.b.Write(p) }
-func (b *syncBuf) count(sub string) int {
+func (b *vfSyncBuf) Write(p []byte) (int, error) { b.mu.Lock(); defer b.mu.Unlock(); return b.b.Write(p) }
+func (b *vfSyncBuf) count(sub string) int {
 	b.mu.Lock()
 	defer b.mu.Unlock()
 	return strings.Count(b.b.String(), sub)
 }
 
-type pathIface struct {
-	fp      *failingPlugin
+type vfPathIface struct {
+	fp      *vfFailingPlugin
 	name    string
 	cfg     config.Interface
 	conns   []*vfConn
@@ -140,7 +140,7 @@ const (
 	pAPI
 )
 
-type pathOp struct {
+type vfPathOp struct {
 	held  bool // a periodic generation of the interface is held in flight (inside the plugin) until the end of the history
 	pfail bool // the next Apply of the interface's wildcard plugin fails (its address source fails once)
 	fail  bool // the next forwarding read of the interface fails
@@ -152,13 +152,13 @@ type pathOp struct {
 
 // runPaths executes one history of forwarding flips and RA generations over two advertising
 // interfaces in virtual time and records what each generation produced.
-func runPaths(t *testing.T, out *vfh.Out, lifetimes [2]time.Duration, ops []pathOp) {
+func vfRunPaths(t *testing.T, out *vfh.Out, lifetimes [2]time.Duration, ops []vfPathOp) {
 	out.Pending(fmt.Sprintf("runPaths lifetimes=%v ops=%+v", lifetimes, ops))
 	synctest.Test(t, func(t *testing.T) {
-		st := &pathState{fw: map[string]bool{"vf0": true, "vf1": true}, failNext: map[string]bool{}, pluginFail: map[string]bool{}}
-		logs := &syncBuf{}
+		st := &vfPathState{fw: map[string]bool{"vf0": true, "vf1": true}, failNext: map[string]bool{}, pluginFail: map[string]bool{}}
+		logs := &vfSyncBuf{}
 		ll := log.New(logs, "", 0)
-		var ifis [2]*pathIface
+		var ifis [2]*vfPathIface
 		var cfgs []config.Interface
 		for k := 0; k < 2; k++ {
 			name := []string{"vf0", "vf1"}[k]
@@ -166,10 +166,10 @@ func runPaths(t *testing.T, out *vfh.Out, lifetimes [2]time.Duration, ops []path
 			cfg.Name = name
 			// a wildcard plugin whose address source can be made to fail once (op P): a plugin failure
 			// while an RA is being generated must not let an RA out that skips the forwarding rule
-			fp := &failingPlugin{st: st, name: name}
+			fp := &vfFailingPlugin{st: st, name: name}
 			cfg.Plugins = append(cfg.Plugins, fp)
 			cfgs = append(cfgs, cfg)
-			ifis[k] = &pathIface{fp: fp, name: name, cfg: cfg, watchC: make(chan netstate.Change, 8), done: make(chan error, 1)}
+			ifis[k] = &vfPathIface{fp: fp, name: name, cfg: cfg, watchC: make(chan netstate.Change, 8), done: make(chan error, 1)}
 		}
 		reg := prometheus.NewPedanticRegistry()
 		mm := NewMetrics(metricslite.NewPrometheus(reg), "v", time.Time{}, st, cfgs)
@@ -180,7 +180,7 @@ func runPaths(t *testing.T, out *vfh.Out, lifetimes [2]time.Duration, ops []path
 			pi := ifis[k]
 			d := system.NewDialer(pi.name, st, system.Advertise, nil)
 			d.DialFunc = func() (*system.DialContext, error) {
-				c := newVfConn()
+				c := vfNewVfConn()
 				c.t0 = start
 				pi.conns = append(pi.conns, c)
 				return &system.DialContext{Conn: c,
@@ -207,7 +207,7 @@ func runPaths(t *testing.T, out *vfh.Out, lifetimes [2]time.Duration, ops []path
 		misLine := func(name string) int {
 			return logs.count(name + ": interface is not configured for IPv6 forwarding")
 		}
-		lastWrite := func(pi *pathIface) *vfWrite {
+		lastWrite := func(pi *vfPathIface) *vfWrite {
 			ws := pi.conns[len(pi.conns)-1].snapshot()
 			if len(ws) == 0 {
 				return nil
@@ -418,17 +418,17 @@ func verifC04Paths(t *testing.T, r *vfh.Rand, out *vfh.Out) {
 	if vfh.Thorough() {
 		depth = 3
 	}
-	var rec func(ops []pathOp, fw bool, n int)
-	rec = func(ops []pathOp, fw bool, n int) {
+	var rec func(ops []vfPathOp, fw bool, n int)
+	rec = func(ops []vfPathOp, fw bool, n int) {
 		if n > 0 {
-			runPaths(t, out, lts[n%len(lts)], ops)
+			vfRunPaths(t, out, lts[n%len(lts)], ops)
 		}
 		if n == depth {
 			return
 		}
 		for _, p := range paths {
 			for _, b := range []bool{false, true} {
-				next := append(append([]pathOp(nil), ops...), pathOp{flip: true, iface: 0, b: b}, pathOp{iface: 0, path: p}, pathOp{iface: 1, path: pAPI})
+				next := append(append([]vfPathOp(nil), ops...), vfPathOp{flip: true, iface: 0, b: b}, vfPathOp{iface: 0, path: p}, vfPathOp{iface: 1, path: pAPI})
 				rec(next, b, n+1)
 				if p == pFinal {
 					break
@@ -441,7 +441,7 @@ func verifC04Paths(t *testing.T, r *vfh.Rand, out *vfh.Out) {
 	// not be built from a remembered value
 	for _, p := range []int{pPeriodic, pSolicited, pVerify, pScrape, pAPI, pInitial} {
 		for _, b := range []bool{false, true} {
-			runPaths(t, out, lts[1], []pathOp{{iface: 0, path: pSolicited}, {flip: true, iface: 0, b: b}, {fail: true, iface: 0},
+			vfRunPaths(t, out, lts[1], []vfPathOp{{iface: 0, path: pSolicited}, {flip: true, iface: 0, b: b}, {fail: true, iface: 0},
 				{iface: 0, path: p}, {iface: 0, path: pAPI}, {iface: 1, path: pSolicited}})
 		}
 	}
@@ -449,7 +449,7 @@ func verifC04Paths(t *testing.T, r *vfh.Rand, out *vfh.Out) {
 	// RA may go out (in particular none that skipped the forwarding rule), the advertiser ends
 	for _, p := range []int{pPeriodic, pSolicited, pVerify, pInitial} {
 		for _, b := range []bool{false, true} {
-			runPaths(t, out, lts[1], []pathOp{{iface: 0, path: pSolicited}, {flip: true, iface: 0, b: b}, {pfail: true, iface: 0},
+			vfRunPaths(t, out, lts[1], []vfPathOp{{iface: 0, path: pSolicited}, {flip: true, iface: 0, b: b}, {pfail: true, iface: 0},
 				{iface: 0, path: p}, {iface: 0, path: pAPI}, {iface: 1, path: pSolicited}})
 		}
 	}
@@ -458,32 +458,32 @@ func verifC04Paths(t *testing.T, r *vfh.Rand, out *vfh.Out) {
 	// of a neighbour's RA, a scrape, an API request — reflects the state of ITS moment
 	for _, p := range []int{pVerify, pScrape, pAPI} {
 		for _, b := range []bool{false, true} {
-			runPaths(t, out, lts[1], []pathOp{{flip: true, iface: 0, b: !b}, {iface: 0, path: pSolicited}, {held: true, iface: 0},
+			vfRunPaths(t, out, lts[1], []vfPathOp{{flip: true, iface: 0, b: !b}, {iface: 0, path: pSolicited}, {held: true, iface: 0},
 				{flip: true, iface: 0, b: b}, {iface: 0, path: p}, {iface: 1, path: pAPI}})
 		}
 	}
 	n := vfh.N(60, 2000)
 	for i := 0; i < n; i++ {
-		var ops []pathOp
+		var ops []vfPathOp
 		for k := 2 + r.Intn(24); k > 0; k-- {
 			if r.Chance(1, 14) {
 				i := r.Intn(2)
-				ops = append(ops, pathOp{pfail: true, iface: i},
-					pathOp{iface: i, path: vfh.Pick(r, []int{pPeriodic, pSolicited, pVerify, pInitial})})
+				ops = append(ops, vfPathOp{pfail: true, iface: i},
+					vfPathOp{iface: i, path: vfh.Pick(r, []int{pPeriodic, pSolicited, pVerify, pInitial})})
 			} else if r.Chance(1, 12) {
 				i := r.Intn(2)
-				ops = append(ops, pathOp{fail: true, iface: i},
-					pathOp{iface: i, path: vfh.Pick(r, []int{pPeriodic, pSolicited, pVerify, pScrape, pAPI, pInitial})})
+				ops = append(ops, vfPathOp{fail: true, iface: i},
+					vfPathOp{iface: i, path: vfh.Pick(r, []int{pPeriodic, pSolicited, pVerify, pScrape, pAPI, pInitial})})
 			} else if r.Chance(1, 3) {
-				ops = append(ops, pathOp{flip: true, iface: r.Intn(2), b: r.Bool()})
+				ops = append(ops, vfPathOp{flip: true, iface: r.Intn(2), b: r.Bool()})
 			} else {
 				p := vfh.Pick(r, paths)
 				if p == pFinal && !r.Chance(1, 6) {
 					p = pSolicited
 				}
-				ops = append(ops, pathOp{iface: r.Intn(2), path: p})
+				ops = append(ops, vfPathOp{iface: r.Intn(2), path: p})
 			}
 		}
-		runPaths(t, out, vfh.Pick(r, lts), ops)
+		vfRunPaths(t, out, vfh.Pick(r, lts), ops)
 	}
 }
